@@ -172,6 +172,12 @@ def run_check(mod, tier, seed, only=None):
         jobs = [j for i, j in enumerate(jobs) if i in only]
     total = Result()
     nproc = min(NPROC, max(1, len(jobs)))
+    try:
+        from vlib import warm
+
+        warm.warm()
+    except Exception as e:  # warming is an optimisation only
+        print(f"[{pid}] cache warm-up skipped: {type(e).__name__}: {e}", file=sys.stderr)
     if getattr(mod, "SERIAL", False) or nproc == 1 or os.environ.get("VERIF_SERIAL"):
         _worker_init(mod.__name__)
         for j in jobs:
